@@ -1,3 +1,4 @@
+import RdpModel.Wire.Tpkt
 import RdpModel.Wire.Connect
 import RdpModel.Spec.Negotiation
 import Driver.C13
@@ -25,6 +26,20 @@ def connectOps (toks : List String) : String :=
           | .refuse => "E none" | .tls _ => "E tls" | .raw => "ok raw"
         | none => "-"
       m ++ "\t" ++ oracle
+    | _, _ => "bad-case"
+  | ["x224_stream", off, auth, hx] =>
+    -- the same decision, the confirm arriving as a raw stream: TPKT deframing first
+    match off.toNat?, ofHex hx with
+    | some off, some d =>
+      let hasAuth := auth = "1"
+      let m := match Tpkt.read ⟨d, []⟩ with
+        | .ok (.raw p, _) =>
+          (let m := oTag (negotiate off hasAuth p) fun dec => match dec with | .continueRaw => "ok raw" | _ => "E tls"
+           if m = "E" then "E none" else m)
+        | .ok (.fast _ _, _) => "E none"
+        | .err _ => "E none"
+        | .panic _ => "P"
+      m ++ "\t-"
     | _, _ => "bad-case"
   | ["gcc_ccr", hx] =>
     match ofHex hx with
